@@ -53,8 +53,14 @@ impl Renderer {
 	/// Called by the backend when the sample rate of the
 	/// audio output changes.
 	pub fn on_change_sample_rate(&mut self, sample_rate: u32) {
+		#[cfg(kira_verif)]
+		crate::verif::yield_point("renderer.rate.begin");
 		self.dt = 1.0 / sample_rate as f64;
+		#[cfg(kira_verif)]
+		crate::verif::yield_point("renderer.rate.store");
 		self.shared.sample_rate.store(sample_rate, Ordering::SeqCst);
+		#[cfg(kira_verif)]
+		crate::verif::yield_point("renderer.rate.fanout");
 		self.resources.mixer.on_change_sample_rate(sample_rate);
 	}
 
